@@ -27,8 +27,8 @@ MANIFEST = {
     'technique': 'deductive: VCs from the real AST of weak_lru_cache (nested closures, decorators), transition VCs of the abstract cache/heap '
                  'model, AST ownership and identity-equality obligations; z3; native replay with weakref/gc; random interleavings as stand-in',
 }
-UNITS = ['unit_decorator', 'unit_model', 'unit_ownership']
-BOUNDED = ['bounded_interleavings', 'bounded_purity']
+UNITS = ['unit_decorator', 'unit_model', 'unit_ownership', 'unit_plumbing']
+BOUNDED = ['bounded_interleavings', 'bounded_purity', 'bounded_plumbing']
 META = {'clauses': {'C20.key': 'P', 'C20.inv': 'P over the abstract model + A (weakref / lru_cache axioms)', 'C20.transp': 'P (corollary)', 'C20.alive': 'P (static ownership) with known finding'},
         'not_decided': ['thread schedules (lru_cache locking assumed; GEMDAT starts no threads)', 'mutation of returned arrays by the caller']}
 
@@ -535,3 +535,14 @@ from verif.native.purity import make_bounded as _make_purity  # noqa: E402
 from verif.props.purity_reg import REG as _PURITY_REG  # noqa: E402
 PURITY = _PURITY_REG['C20']
 bounded_purity = _make_purity('C20', PURITY)
+
+
+# plumbing around the anchored functions: forwarding contracts of the public wrappers, no state shared between calls or objects
+from verif.props import plumbing as _plumbing  # noqa: E402
+
+
+def unit_plumbing(tier):
+    return _plumbing.unit_plumbing(PROPERTY)
+
+
+bounded_plumbing = _plumbing.make_bounded(PROPERTY)
